@@ -39,13 +39,18 @@ def main():
     rp = os.path.join(VERIF, "sensitivity", "RESULTS.json")
     if os.path.exists(rp):
         res = json.load(open(rp))
+        np_ = os.path.join(VERIF, "sensitivity", "NOTES.json")
+        notes = json.load(open(np_)) if os.path.exists(np_) else {}
         print()
         print("| own sensitivity mutant (`sensitivity/*.diff`) | baseline tests with mutant | quick check | first violation |")
         print("|---|---|---|---|")
         for n, r in sorted(res.items()):
             v = r.get("violations") or [""]
             parts = dict(p.split("=", 1) for p in v[0].split(" ") if "=" in p and p.split("=")[0] in ("clause", "fingerprint"))
-            print(f"| `{n}` | {r.get('tests','').split(' in ')[0]} | {'**caught**' if r.get('detected') else 'missed (rc=%s)' % r.get('rc')} | {parts.get('clause','')} : {parts.get('fingerprint','')} |")
+            verdict = "**caught**" if r.get("detected") else "missed (rc=%s)" % r.get("rc")
+            if n in notes and not r.get("detected"):
+                verdict = "n/a: " + notes[n]
+            print(f"| `{n}` | {r.get('tests','').split(' in ')[0]} | {verdict} | {parts.get('clause','')} : {parts.get('fingerprint','')} |")
 
 
 if __name__ == "__main__":
